@@ -9,17 +9,17 @@ def C(technique, text, design, note=TRUST, level="exploration"):
 
 CHECKS = {
     "C01": C("runtime monitoring: shadow verifier (reference-model MAC recomputed on every success) + metamorphic parent/child monitor over single-component mutations",
-             "Held on K observed executions: every accepted request's presented signature equals the reference HMAC, under the key the provider returned in that execution, of the reference string-to-sign of the request as received; ~30 kinds of single-component mutation of accepted requests (incl. every signature position) are all refused at the comparison stage. Assumes HMAC-SHA256 unforgeability; sampling, not proof.", "§4 C01"),
+             "Held on K observed executions: every accepted request's presented signature equals the reference HMAC, under the key the provider returned in that execution, of the reference string-to-sign of the request as received; ~40 kinds of single-component mutation of accepted requests (incl. every signature position) are all refused at the comparison stage. Assumes HMAC-SHA256 unforgeability; sampling, not proof.", "§4 C01"),
     "C02": C("runtime monitoring: reference-signer workload + acceptance monitor with an executable reference model",
              "Held on K observed executions: randomly generated logical requests are signed by an independent reference signer and rendered in several admissible wire spellings; the monitor requires the real validator to accept each one (both carriers, tokens, all option sets, boundary clocks). Sampling, not proof.", "§4 C02"),
     "C03": C("runtime monitoring: reference scope rule + provider event-log monitor over a credential grammar (incl. requests validly signed under the foreign scope)",
              "Held on K observed executions: near-miss credentials (arity, each field × 9 near-miss kinds, local vs UTC date) are refused with the documented class even when validly signed for their own scope by a provider handing out that scope's key; provider arguments equal (access key, token, UTC date, server region, service).", "§4 C03"),
     "C04": C("runtime monitoring: window oracle in integer nanoseconds over an exhaustive second-grid and bound-adjacent instants in many renderings",
              "Held on the enumerated grid: whole-second offsets −1200…+1200 × sub-second parts on both sides at boundary server instants; the six instants at/±1 ns around both bounds for 14 server instants in many renderings; every request validly signed so inside ⇒ accepted is observed; outside ⇒ refused before any provider event.", "§4 C04"),
-    "C05": C("runtime monitoring: reference set predicate over requirement sets built three ways, on requests correctly signed over the list they declare; set-model monitor of the containers",
-             "Held on K observed executions: each requirement kind (host, always, if-present, prefix; mixed-case declarations) violated alone with an otherwise valid signature is refused 403; satisfied sets are accepted through all three construction paths; add/remove sequences agree with a case-folded set model.", "§4 C05"),
+    "C05": C("runtime monitoring: reference set predicate over requirement sets built four ways (incl. in stages with reads in between), on requests correctly signed over the list they declare; set-model monitor of the containers",
+             "Held on K observed executions: each requirement kind (host, always, if-present, prefix; mixed-case declarations) violated alone with an otherwise valid signature is refused 403; satisfied sets are accepted through all four construction paths; add/remove sequences agree with a case-folded set model.", "§4 C05"),
     "C06": C("runtime monitoring: independent HMAC chain compared with all 10 derivation routes; capacity probes under panic capture",
-             "Held on the enumerated/explored inputs: every secret length 0…M+8 for 11 capacities (Ok iff it fits, never a panic), every secret length 0–40 and every day of the listed years through all 10 routes, random dates 1–9999, odd regions/services; read-back equals input.", "§4 C06"),
+             "Held on the enumerated/explored inputs: every secret length 0…M+8 for 14 capacities (and lengths up to 65 540) (Ok iff it fits, never a panic), every secret length 0–40 and every day of the listed years through all 10 routes, random dates 1–9999, odd regions/services; read-back equals input.", "§4 C06"),
     "C07": C("runtime monitoring: ptrace single-step instruction-trace monitor with a byte-wise memcmp/bcmp override and determinism/sensitivity controls",
              "Held on the traced probes (request shapes: both carriers, session token, S3 mode, folded form POST, requirement sets, skewed clock, richer identities): refusals of one request under one key whose signatures differ only in which characters are wrong (every first-difference position in thorough) execute identical instruction-address sequences (count + hash), in the release build and, for the plain probe group, in an unoptimised build; a harness-local early-exit compare shows position-dependent traces in the same set-up. Instruction sequence only, not micro-architectural timing.", "§4 C07",
              note="Trusts ptrace single-stepping and that forks of one warmed single-threaded parent share layout, allocator state and hash seeds (checked by the determinism control each run); the memcmp/bcmp override is verified effective by the sensitivity control each run."),
@@ -30,23 +30,23 @@ CHECKS = {
     "C10": C("runtime monitoring: reference canonical query + permutation / re-spelling relations on direct calls; fresh-process digest comparison (different hash seeds); end-to-end acceptance",
              "Held on K observed executions: canonical query equals the spec-sorted once-encoded multiset for byte tables, structural corner cases and random queries dense in prefix-related and repeated names; invariant under permutation and re-spelling; identical across fresh processes; malformed escapes → MalformedQueryString/400.", "§4 C10"),
     "C11": C("runtime monitoring: parent/child metamorphic monitor (neutral vs binding header changes) + reference header block",
-             "Held on K observed executions: 8 kinds of neutral change (name case, order among names, extra spaces, unsigned headers added/removed/altered/duplicated) keep acceptance; 8 kinds of binding change to signed headers (value byte, multiplicity, value order, space moved into a token, TAB for space…) are refused at the comparison.", "§4 C11"),
+             "Held on K observed executions: 9 kinds of neutral change (name case, order among names, extra spaces, unsigned headers added/removed/altered/duplicated) keep acceptance; 14 kinds of binding change to signed headers (value byte, multiplicity, value order, space moved into a token, TAB for space…) are refused at the comparison.", "§4 C11"),
     "C12": C("runtime monitoring: four-way option-flip monitor (same wire request signed folded and verbatim, validated with folding on and off) + returned-URI multiset check",
              "Held on K observed executions: with folding on and a form body exactly the merged-multiset signature (empty payload hash) is accepted, otherwise exactly the verbatim-body signature; names occurring in URL and body are kept; body byte flips refused; undecodable bodies / unknown charsets → 400.", "§4 C12"),
     "C13": C("runtime monitoring: defect-injection workload judged by a total reference decision model (earliest failing check + error class) and a kind→(code,status) table monitor; thorough adds a coverage-guided (libFuzzer) run with every monitor as the oracle",
-             "Held on K observed executions: all single defects, all pairs and random subsets of 31 injectors on both carriers report the earliest failing check's class; every (earlier, later, carrier) cell of the pair matrix observed; every error seen and every variant constructed directly obeys the kind → (code, status) table.", "§4 C13"),
+             "Held on K observed executions: all single defects, all pairs and random subsets of 35 injectors on both carriers report the earliest failing check's class; every (earlier, later, carrier) cell of the pair matrix observed; every error seen and every variant constructed directly obeys the kind → (code, status) table.", "§4 C13"),
     "C14": C("fault enumeration: complete enumeration of provider scripts within bounds × request classes, offline event-log checker; random histories on a shared provider",
-             "All 352 provider scripts (readiness delayed 0–3 then ready/16 error kinds; answer delayed 0–3 then right key / wrong key / 16 error kinds) × 14 request classes × 2 carriers executed and decided: no provider event for requests refused earlier, exactly one call after Ready(Ok), errors passed on as (kind, text), never Ok after an error or with a wrong key; histories sharing one provider equal fresh-provider runs.", "§4 C14", level="fault_enumeration"),
+             "All 472 provider scripts (readiness delayed 0–3 then ready/22 error shapes; answer delayed 0–3 then right key / wrong key / 22 error shapes) × 15 request classes × 2 carriers, 20 further pre-lookup defect classes under a diagonal of 16 scripts, the crate's own adapter as provider, the authenticator's own route executed and decided: no provider event for requests refused earlier, exactly one call after Ready(Ok), errors passed on as (kind, text), never Ok after an error or with a wrong key; histories sharing one provider equal fresh-provider runs.", "§4 C14", level="fault_enumeration"),
     "C15": C("runtime monitoring: field-by-field equality of returned parts/body/identity with the harness's copy of the submission (merged-multiset rule when folding applied)",
              "Held on K accepted requests: method, version, header names/values/multiplicity/per-name order, body and URI are returned unchanged (folded: empty body, path canonicalising to the submitted one, query multiset = URL ⊎ body); principal and session data equal the provider's, over all methods, versions, body types, identity kinds.", "§4 C15"),
     "C16": C("runtime monitoring: three-valued reference ISO-8601 parser; exhaustive per-field tables; acceptance observed through validly signed requests with the clock exactly on both window bounds",
              "Held on the enumerated/explored strings: every two-digit value of each field, separator combinations, offsets in 15-min steps, fraction lengths, month lengths, junk, random renderings and mutations through X-Amz-Date header, Date header and query parameter: must-accept ⇒ accepted with exactly the reference instant (±1 ns would flip a bound), must-reject ⇒ ISO-8601 error 400.", "§4 C16"),
     "C17": C("runtime monitoring: taint scan of errors, Debug/Display renderings and captured log records (≥ debug) for key material and for the correct signature of refused requests",
-             "Held on K observed executions: no 16-byte window of the secret, AWS4+secret, kDate…kSigning in raw/hex/base64/decimal-list form, nor the correct signature of a refused request, appears in any error text, rendering of a public value or log record at debug level or above; scanner controls pass each run.", "§4 C17"),
+             "Held on K observed executions: no 16-byte window of the secret, AWS4+secret, kDate…kSigning in raw / hex (also separated) / base64 / decimal- and hex-list / escaped form, nor a whole short secret, nor the correct signature of a refused request, appears in any error text, rendering of a public value or log record at debug level or above; scanner controls pass each run.", "§4 C17"),
     "C18": C("runtime monitoring: outcome comparator across repetition, 2–16 threads, cold-start races and fresh processes; thorough adds ThreadSanitizer and Miri (seeded schedules)",
              "Held on K observed executions: every corpus case yields the same outcome digest single-threaded, repeated, from 2/4/8/16 threads (measured overlap), in cold-start races on the lazy statics and in fresh processes; TSan/Miri clean in the thorough tier. Interleavings are sampled.", "§4 C18"),
     "C19": C("runtime monitoring: duplicated-input workload signed as received under the assumption that copy k is effective; reference selection rules + provider event log",
-             "Held on K observed executions: for each of 13 duplicable inputs × 2–3 copies × every position of the valid copy, the request is accepted iff the valid copy is the documented selection; four both-carrier shapes always refused; token selection verified in the provider log.", "§4 C19"),
+             "Held on K observed executions: for each of 20 duplicable inputs (incl. duplicates split between URL and folded body or lying entirely inside the body) × 2–3 copies × every position of the valid copy, the request is accepted iff the valid copy is the documented selection; four both-carrier shapes always refused; token selection verified in the provider log.", "§4 C19"),
 }
 
 NOT_APPLICABLE = {}
